@@ -23,6 +23,14 @@ import (
 
 const HookPath = "github.com/benoitkugler/gomacro/verifhook"
 
+// RepoDir is the tree under verification (VERIF_REPO, default /repo).
+var RepoDir = func() string {
+	if v := os.Getenv("VERIF_REPO"); v != "" {
+		return v
+	}
+	return "/repo"
+}()
+
 type Overlay struct {
 	Replace map[string]string
 	Sites   []string // instrumented sites, for the evidence
@@ -30,7 +38,7 @@ type Overlay struct {
 
 func New(verifDir string) *Overlay {
 	return &Overlay{Replace: map[string]string{
-		"/repo/verifhook/hook.go": filepath.Join(verifDir, "mc", "overlay", "verifhook", "hook.go"),
+		RepoDir + "/verifhook/hook.go": filepath.Join(verifDir, "mc", "overlay", "verifhook", "hook.go"),
 	}}
 }
 
@@ -100,7 +108,7 @@ func (o *Overlay) Sync(file, dir string) error {
 // Maps rewrites every `for k, v := range m` over a map, in the non-test files of the given
 // package patterns of /repo, into a loop over verifhook.Keys(site, m).
 func (o *Overlay) Maps(dir string, patterns ...string) error {
-	cfg := &packages.Config{Dir: "/repo", Mode: packages.NeedName | packages.NeedFiles | packages.NeedSyntax | packages.NeedTypes | packages.NeedTypesInfo | packages.NeedImports | packages.NeedDeps,
+	cfg := &packages.Config{Dir: RepoDir, Mode: packages.NeedName | packages.NeedFiles | packages.NeedSyntax | packages.NeedTypes | packages.NeedTypesInfo | packages.NeedImports | packages.NeedDeps,
 		Env: append(os.Environ(), "GOFLAGS=-mod=mod", "GOPROXY=off", "GOSUMDB=off", "GOTOOLCHAIN=local")}
 	pkgs, err := packages.Load(cfg, patterns...)
 	if err != nil {
@@ -151,7 +159,7 @@ func (o *Overlay) rewriteMapRanges(p *packages.Package, f *ast.File, file, dir s
 			return true
 		}
 		pos := p.Fset.Position(rs.Pos())
-		edits = append(edits, edit{rs, fmt.Sprintf("%s:%d", strings.TrimPrefix(pos.Filename, "/repo/"), pos.Line)})
+		edits = append(edits, edit{rs, fmt.Sprintf("%s:%d", strings.TrimPrefix(pos.Filename, RepoDir+"/"), pos.Line)})
 		return true
 	})
 	if len(edits) == 0 {
